@@ -23,7 +23,7 @@ EXPECTS = ("one_to_one", "many_to_one", "one_to_many", "many_to_many")
 HOWS = ("inner", "left", "full")
 VARIANTS = ("matched", "unmatched", "none", "composite", "last", "first", "triple")
 from .. import values as _V
-INVALID = ["one_to_one\n", "many_to_one\n", "one_to_many\n", "many_to_many\n", "\none_to_one", "one_to_one\r\n", "one_to_one\t", " many_to_many", "one_to_one\x00", b"one_to_one", "one-to-one", "ONE_TO_ONE", "", None, 1, "many_to_none", "left", True, "one_to_one ", ("one_to_one",), ["one_to_one"], {"one_to_one"}, {"one_to_one": 1}, bytearray(b"one_to_one"), 10 ** 5000, _V.EqAll(), Vector(["one_to_one"]), Vector(["one_to_one", "one_to_one"]), 1.5, object()]
+INVALID = ["one_to_one\n", "many_to_one\n", "one_to_many\n", "many_to_many\n", "\none_to_one", "one_to_one\r\n", "one_to_one\t", " many_to_many", "one_to_one\x00", b"one_to_one", "one-to-one", "ONE_TO_ONE", "", None, 1, "many_to_none", "left", "1:1", "m:1", "1:m", "m:m", "1:n", "n:1", "n:m", "1-1", "1to1", "one2one", "many-to-many", "manytomany", "m2m", "inner", "outer", "unique", "one_to_one,many_to_one", "one", "many", "*", True, "one_to_one ", ("one_to_one",), ["one_to_one"], {"one_to_one"}, {"one_to_one": 1}, bytearray(b"one_to_one"), 10 ** 5000, _V.EqAll(), Vector(["one_to_one"]), Vector(["one_to_one", "one_to_one"]), 1.5, object()]
 
 
 def fn_of(L, how):
@@ -126,7 +126,7 @@ def judge_cell(chk, L, R, spec):
 		for T in (L, R):
 			call(T.fingerprint)
 			[call(c.fingerprint) for c in T.cols()]
-	o = call(fn_of(L, how), R, a, b, expect=expect)
+	o = call(fn_of(L, how), R, a, b, expect) if spec.get("positional") else call(fn_of(L, how), R, a, b, expect=expect)
 	stratum = spec.get("stratum", "cell")
 	chk.judged(stratum, ("cell", how, expect, lu, ru, spec.get("variant")))
 	cellname = f"{how}/{expect}/left-{'unique' if lu else 'dup'}/right-{'unique' if ru else 'dup'}"
@@ -166,8 +166,11 @@ def judge_cell(chk, L, R, spec):
 
 def run_invalid(chk, spec):
 	L, R = common.mk_table(spec["left"]), common.mk_table(spec["right"])
-	o = call(fn_of(L, spec["how"]), R, spec["lon"], spec["ron"], expect=spec["expect"])
-	chk.judged("invalid-expect", ("invalid", spec["how"], short(spec["expect"], 40) if not isinstance(spec["expect"], int) or isinstance(spec["expect"], bool) else f"int of {spec['expect'].bit_length()} bits"))
+	if spec.get("positional"):
+		o = call(fn_of(L, spec["how"]), R, spec["lon"], spec["ron"], spec["expect"])      # (the fourth positional parameter IS expect)
+	else:
+		o = call(fn_of(L, spec["how"]), R, spec["lon"], spec["ron"], expect=spec["expect"])
+	chk.judged("invalid-expect", ("invalid", spec["how"], bool(spec.get("positional")), short(spec["expect"], 40) if not isinstance(spec["expect"], int) or isinstance(spec["expect"], bool) else f"int of {spec['expect'].bit_length()} bits"))
 	if o.ok:
 		chk.fail("any other expect value is always rejected", f"cardinality/invalid-expect-accepted/{spec['how']}",
 			f"{spec['how']} join with expect={short(spec['expect'], 60)} returned {short(o.value, 100)}")
@@ -239,6 +242,46 @@ def run_promoted_key_history(chk, spec):
 
 
 RUNNERS.update({"promoted_key_history": run_promoted_key_history})
+
+
+def run_library_results_as_operands(chk, spec):
+	"""tables the library itself produced - an aggregate (one row per key TUPLE, which says nothing about any single key column), a sorted table, a window
+	result, an earlier join - used as join operands: uniqueness is a fact about the key columns actually named, found by looking at them"""
+	import warnings
+	with warnings.catch_warnings():
+		warnings.simplefilter("ignore")
+		sales = Table({"region": ["n", "n", "s", "s", "n", "w"], "product": ["a", "b", "a", "c", "a", "a"], "amt": [1, 2, 3, 4, 5, 6]})
+		src = spec["source"]
+		if src == "aggregate-2-keys":
+			made = sales.aggregate(over=["region", "product"], sum_over="amt")
+		elif src == "aggregate-3-keys":
+			made = sales.aggregate(over=["region", "product", "amt"], count_over="amt")
+		elif src == "sorted":
+			made = sales.sort_by(["region", "product"])
+		elif src == "sorted-desc":
+			made = sales.sort_by("region", reverse=True)
+		elif src == "window":
+			made = sales.window(over=["region", "product"], sum_over="amt")
+		else:
+			made = sales.aggregate(over=["region", "product"], sum_over="amt").inner_join(Table({"region": ["n", "s", "w"], "mgr": ["x", "y", "z"]}), "region", "region", expect="many_to_one")
+		names = made.column_names()
+		other_keys = {"unique": ["n", "s", "w"], "dup": ["n", "s", "n"], "partial": ["s", "q"]}[spec["other"]]
+		other = Table({"rg": list(other_keys), "oid": list(range(len(other_keys)))})
+		keyname = names[0]
+		if spec["side"] == "right":
+			L, R, lon, ron = other, made, ["rg"], [keyname]
+		else:
+			L, R, lon, ron = made, other, [keyname], ["rg"]
+		for how, expect in spec["calls"]:
+			judge_cell(chk, L, R, {"how": how, "expect": expect, "lon": lon, "ron": ron, "stratum": "cell-history", "variant": f"{src}-as-{spec['side']}", "key_mode": spec["key_mode"]})
+		if src.startswith("aggregate") or src == "window":
+			# ... and on the full key tuple, where the aggregate IS unique
+			other2 = Table({"rg": ["n", "s", "n"], "pd": ["a", "a", "b"], "oid": [1, 2, 3]})
+			if spec["side"] == "right":
+				judge_cell(chk, other2, made, {"how": spec["calls"][0][0], "expect": spec["calls"][0][1], "lon": ["rg", "pd"], "ron": names[:2], "stratum": "cell-history", "variant": f"{src}-full-key", "key_mode": spec["key_mode"]})
+
+
+RUNNERS.update({"library_results_as_operands": run_library_results_as_operands})
 
 
 def realise(rng, lu, ru, variant, kind="int"):
@@ -339,6 +382,17 @@ def run(chk):
 				s = spec_from_keys(rng, lk, rk, how, bad, "invalid")
 				s["lon"], s["ron"] = s["lon"][0], s["ron"][0]
 				chk.case("invalid", s, "invalid-expect")
+				if lk == [[1, 1]]:
+					chk.case("invalid", dict(s, positional=True), "invalid-expect-positional")
+		for expect in EXPECTS:
+			for lk, rk in (([[1, 1]], [[1, 2]]), ([[1, 2]], [[1, 1]]), ([[1, 2]], [[2, 3]])):
+				chk.case("cell", dict(spec_from_keys(rng, lk, rk, how, expect, "positional"), positional=True), "cell-positional")
+	for source in ("aggregate-2-keys", "aggregate-3-keys", "sorted", "sorted-desc", "window", "join-result"):
+		for side in ("right", "left"):
+			for other in ("unique", "dup", "partial"):
+				for key_mode in ("name", "vector"):
+					calls = [(rng.choice(HOWS), e) for e in rng.sample(EXPECTS, len(EXPECTS))]
+					chk.case("library_results_as_operands", {"source": source, "side": side, "other": other, "key_mode": key_mode, "calls": calls}, "cell-library-results")
 	for how in HOWS:
 		_c09.repeated_key_cases(chk, how, 40 if chk.quick() else 300, expects=EXPECTS)
 	# key columns that differ only where hash() cannot tell (equal fingerprints), every fingerprint cached beforehand
